@@ -28,6 +28,10 @@ Round-3 dimensions:
   old sessions Propose / CloseSession through the facade vs SyncPropose / SyncCloseSession with tracked AND no-op sessions
               obtained earlier (G) or made by hand (H): while the shard runs, after it was stopped, after the re-host (no-op),
               for a never-hosted id, after the NodeHost was closed: same outcome, status code = table code of the local error.
+Round-4 dimension:
+  concurrency GetSession calls through ONE facade object at the same instant: bursts of 4 / 8 / 16 goroutines asking for regular,
+              concurrent, on-disk and non-hosted ids, released together, 150 (quick) / 400 (thorough) rounds each; every single
+              answer must be the one C19_kind states for the shard THAT call asked for (monitor only: runtime behaviour).
   error types the error alphabet is not only the dragonboat/context values: wrapped, joined, pointer (nil too), struct,
               slice, map, struct holding slice/map/func/interface, array, string, int, embedding, status-typed errors and
               odd texts go through grpcError/GRPCError, and through Read as the error a state machine's Lookup returns.
@@ -408,6 +412,38 @@ def gen_ready_blocks(ck):
     return blocks
 
 
+def gen_burst_blocks(ck):
+    """CONCURRENT GetSession calls through one facade object: bursts of 4-16 goroutines asking for shards of different kinds
+    (regular / concurrent / on-disk / not hosted) at the same instant, a few hundred rounds; oracle = C19_kind per call"""
+    rng = ck.rng
+    blocks = []
+    mixes = [(1, 3), (3, 2), (1, 3, 2, 3), (3, 3, 1), (2, 1, 3, 3, 1, 3), (3, 1), (1, 2, 3, 1, 2, 3, 3, 3)]
+    if ck.tier != "quick":
+        mixes += [tuple(rng.choice((1, 2, 3)) for _ in range(rng.choice((2, 3, 5, 8, 12)))) for _ in range(24)]
+        mixes = [m if 3 in m and len(set(m)) > 1 else m + (3, 1) for m in mixes]
+    rounds = 150 if ck.tier == "quick" else 400
+    for mix in mixes:
+        ids = list(range(1, len(mix) + 1))
+        b = Block(dict(zip(ids, mix)), ids)
+        b.add("NH")
+        for sid in ids:
+            b.add("S %d %d" % (sid, mix[sid - 1]), kind="S", shard=sid, typ=mix[sid - 1])
+        b.add("A b")
+        allq = ids + [NONHOSTED, NONHOSTED + 1]
+        for size in (4, 8, 16):
+            # every burst mixes the kinds: a tracked-kind shard, an on-disk shard, a non-hosted id first, the rest PRNG
+            base = [[x for x in ids if mix[x - 1] != 3][0], [x for x in ids if mix[x - 1] == 3][0], NONHOSTED]
+            burst = (base + [rng.choice(allq) for _ in range(size)])[:size]
+            rng.shuffle(burst)
+            b.add("B b %d %s" % (rounds, " ".join(str(x) for x in burst)), kind="B", api="b", ids=burst, rounds=rounds)
+        # and sequentially afterwards: same object, same answers
+        for q in allq:
+            b.add("Q b %d" % q, kind="Q", api="b", shard=q)
+        b.add("END")
+        blocks.append(b)
+    return blocks
+
+
 def corpus_blocks():
     """the regression witnesses of corpus/C19/stale-after-rehost-witnesses.txt as blocks (run first)"""
     path = os.path.join(os.path.dirname(os.path.abspath(__file__)), "..", "..", "corpus", "C19", "stale-after-rehost-witnesses.txt")
@@ -479,6 +515,7 @@ def gen_blocks(ck):
     blocks += gen_rehost_blocks(ck)
     blocks += gen_lookup_err_blocks(ck)
     blocks += gen_ready_blocks(ck)
+    blocks += gen_burst_blocks(ck)
     return blocks
 
 
@@ -575,7 +612,9 @@ def run(ck):
                       "local call; readiness configurations: 0-1 ready shards (0-2 thorough) x 1-2 joining replicas (join=true, nobody to join) "
                       "of every type in every start order, queried between the starts and in every query order (<=24 sampled beyond), the "
                       "joining replica then stopped and its id hosted again; shards of every type queried immediately after Start*Replica "
-                      "returned (NodeHostInfo still says Pending) and again when ready; two NodeHosts behind a real gRPC listener. A case = one facade object's query sequence, one "
+                      "returned (NodeHostInfo still says Pending) and again when ready; concurrent GetSession bursts (4 / 8 / 16 goroutines released at "
+                      "the same instant, mixed kinds and non-hosted ids, 150 quick / 400 thorough rounds) through one facade object on 7 (quick) / "
+                      "31 type mixes; two NodeHosts behind a real gRPC listener. A case = one facade object's query sequence, one "
                       "call pair, one conversion, one error value; distinct by md5 of its canonical text; all are non-trivial.")
     import time
     t0 = time.time()
@@ -644,6 +683,8 @@ def run(ck):
     stats = {"Q": 0, "Q_tracked": 0, "Q_noop": 0, "Q_err": 0, "Q_panic": 0, "P": 0, "R": 0, "X": 0, "closed_nodehost_calls": 0}
     items = []          # (coq term, info)
     other_ix = {}
+    burst_fail = []
+    stats.update({"burst_calls": 0, "burst_infra": 0})
     stats.update({"Y": 0, "Q_joining": 0, "starts_not_waited_for": 0, "of_them_reported_pending": 0})
     stats.update({"K": 0, "E": 0, "Q_after_rehost": 0, "Q_first_ever_after_rehost": 0, "Q_asked_before_with_other_kind": 0, "Q_while_stopped": 0})
     mangled = {}        # error names whose status message is not the error's text
@@ -838,6 +879,44 @@ def run(ck):
                     if path == "f" and len(data) <= 80:
                         items.append(("rcase (LOk %s) 0 %s" % (hex_to_coq(exp), hex_to_coq(data)), ("R", b.describe(), text, o)))
                 ck.count_case("%s %s %s" % (b.describe(), text, o))
+            elif kind == "B":
+                if o[0] != "ok":
+                    other_fail.append(("executor problem in a burst: %s" % " ".join(o)[:100], {"kind": "executor", "block": b.describe(), "line": text}, False))
+                    continue
+                asked = {}
+                for x in meta["ids"]:
+                    asked[x] = asked.get(x, 0) + meta["rounds"]
+                got = {}
+                for tok in o[1:]:
+                    sh, out, n = tok.split(":")
+                    got.setdefault(int(sh), {})[out] = int(n)
+                stats["burst_calls"] += sum(asked.values())
+                for sh in sorted(asked):
+                    exp = "err" if sh not in hosted else ("noop" if hosted[sh] == 3 else "tracked")
+                    outs = got.get(sh, {})
+                    ninfra = outs.pop("infra", 0)
+                    stats["burst_infra"] += ninfra
+                    if exp == "err":
+                        # (any error: the lookup's own, or - never on a correct lookup - the local call's error as a status)
+                        bad = {k2: v for k2, v in outs.items() if not k2.startswith("err")}
+                    else:
+                        bad = {k2: v for k2, v in outs.items() if k2 != exp}
+                    if sum(outs.values()) + ninfra != asked[sh]:
+                        other_fail.append(("executor problem: burst answers missing for shard %d" % sh, {"kind": "executor", "block": b.describe(), "line": text, "obs": o}, False))
+                    if bad:
+                        worst = sorted(bad.items(), key=lambda kv: -kv[1])[0]
+                        what = {"panic": "crash (Go panic: a tracked session was requested)", "noop": "a no-op session", "tracked": "a tracked session",
+                                "err": "the error for a shard that is not hosted"}.get(worst[0], worst[0])
+                        burst_fail.append(((len(meta["ids"]), len(hosted)),
+                                           "concurrent GetSession calls through one facade object: %d of %d calls for shard %d (%s) got %s; required for every call: %s" % (
+                                               sum(bad.values()), asked[sh], sh, "hosted, " + TNAME[hosted[sh]] if sh in hosted else "not hosted", what,
+                                               {"err": "an error", "noop": "a no-op session", "tracked": "a tracked session"}[exp]),
+                                           {"kind": "monitor:kind-concurrent", "hosting": {str(x): TNAME[t] for x, t in sorted(hosted.items())},
+                                            "burst": "one goroutine per listed id, all released at the same instant, %d rounds" % meta["rounds"],
+                                            "ids_asked_concurrently": meta["ids"], "answers": " ".join(o[1:]),
+                                            "note": "timing dependent: the replay repeats the burst; the wrong answers need two overlapping calls",
+                                            "verif_in": [t for (t, m) in b.lines[:k + 1] if t == "NH" or m.get("kind") == "S" or t == "A b"] + [text, "END"]}))
+                    ck.count_case("B %s %s %d %s" % (b.describe(), meta["ids"], sh, sorted(outs)))
             elif kind == "W":
                 if o[0] != "ok":
                     other_fail.append(("harness: shard did not become ready", {"kind": "executor-start", "block": b.describe(), "line": text, "obs": o}, False))
@@ -1008,6 +1087,11 @@ def run(ck):
         ck.violation(why, replay)
         if len(seen_why) >= 3:
             break
+
+    burst_fail.sort(key=lambda x: x[0])
+    for (_, what, replay) in burst_fail[:2]:
+        replay["failures_of_this_monitor_in_this_run"] = len(burst_fail)
+        ck.violation(what, replay)
 
     # ---- session conversions
     tres = [res.get(base + 1 + i, [[None, "missing"]])[0][1:] for i in range(len(tvals))]
